@@ -199,13 +199,32 @@ def disk_prefix_law(ctx):
                 pass          # zero-length file: treated as absent, the getter runs (and here refuses)
             except (EOFError, OSError, gzip.BadGzipFile, Exception) as e:
                 pass          # rejected with an error, never served
-        # a getter that fails part-way leaves no file
-        def bad():
-            yield "a"; raise ValueError("boom")
-        try:
-            dc.get_set("z", bad)
-        except ValueError: pass
-        if "z" in dc: ctx.fail(["disk", "partial-entry-left"], "a failed write left a cache file behind", dict(what="failed write"))
+        # a getter that fails part-way - with an ordinary error, an interrupt or an exit request, at any point of its stream - leaves no entry that is later served as complete
+        few = lines[:6]
+        for exc in (ValueError, KeyboardInterrupt, SystemExit):
+            for cut in range(0, len(few) + 1):
+                ctx.count("disk-getter-fails:" + exc.__name__, cut, True)
+                def bad(cut=cut, exc=exc):
+                    for i, l in enumerate(few):
+                        if i == cut: raise exc("boom")
+                        yield l
+                    if cut == len(few): raise exc("boom")
+                case = dict(what="failed write", exception=exc.__name__, after_items=cut)
+                try:
+                    dc.get_set("z", bad)
+                    ctx.fail(["disk", "failed-getter-served"], "a getter that raised %s after %d items did not surface the error" % (exc.__name__, cut), case); continue
+                except exc: pass
+                except BaseException as e:
+                    ctx.fail(["disk", "failed-getter-other-error", errname(e)], "a getter that raised %s surfaced as %s" % (exc.__name__, errname(e)), case); continue
+                calls = []
+                def good(): calls.append(1); return iter(few)
+                try:
+                    with dc.get_set("z", good) as f: got = [l.rstrip("\n") for l in f]
+                except BaseException as e:
+                    ctx.fail(["disk", "after-failure", errname(e)], "get_set after a getter failed with %s raised %s" % (exc.__name__, errname(e)), case); continue
+                if got != few:
+                    ctx.fail(["disk", "partial-entry-served", exc.__name__], "after a getter failed with %s after %d items the entry is served as %d of %d lines (getter re-run: %s)" % (exc.__name__, cut, len(got), len(few), bool(calls)), case)
+                dc.rmv("z")
     finally:
         shutil.rmtree(d, ignore_errors=True)
 
@@ -215,35 +234,51 @@ def memory_partial_law(ctx):
     full = ["l%d" % i for i in range(5)]
     for wrap in (False, True):
         for cut in range(0, len(full) + 1):
+          for exc in (ValueError, KeyboardInterrupt):
             for kind in ("generator", "iterator"):
                 inner = cc.MemoryCacher()
                 cache = cc.ConcurrentCacher(inner, [0] * 2**16, threading.Lock()) if wrap else inner
                 ctx.count("memory-partial:%s" % ("concurrent" if wrap else "plain"), (wrap, cut, kind), True)
-                def bad(cut=cut, kind=kind):
+                def bad(cut=cut, kind=kind, exc=exc):
                     def g():
                         for i, l in enumerate(full):
-                            if i == cut: raise ValueError("boom")
+                            if i == cut: raise exc("boom")
                             yield l
-                        if cut == len(full): raise ValueError("boom")
+                        if cut == len(full): raise exc("boom")
                     return g() if kind == "generator" else iter(list(g()) if False else g())
-                case = dict(what="memory partial", wrapped=wrap, cut=cut, kind=kind)
+                case = dict(what="memory partial", wrapped=wrap, cut=cut, kind=kind, exception=exc.__name__)
                 try:
                     with cache.get_set("k", bad) as v: got = list(v)
                     ctx.fail(["memory", "failed-getter-served"], "a getter whose stream failed after %d items was served as %r" % (cut, got), case); continue
-                except ValueError: pass
-                except Exception as e:
+                except exc: pass
+                except BaseException as e:
                     ctx.fail(["memory", "failed-getter-other-error", errname(e)], "a failing getter surfaced as %s" % errname(e), case); continue
                 if "k" in cache:
                     ctx.fail(["memory", "partial-entry-left"], "a getter whose stream failed after %d items left an entry behind" % cut, case); continue
                 calls = []
                 def good():
                     calls.append(1); return iter(full)
+                if wrap and any(cache._array): ctx.fail(["memory", "lock-left"], "a getter that raised %s left a lock held" % exc.__name__, case); continue
                 try:
                     with cache.get_set("k", good) as v: got = list(v)
                 except Exception as e:
                     ctx.fail(["memory", "after-failure", errname(e)], "get_set after a failed getter raised %s" % errname(e), case); continue
                 if got != full or calls != [1]:
                     ctx.fail(["memory", "after-failure-wrong"], "after a failed getter (cut %d) the next caller got %r (getter calls: %d)" % (cut, got, len(calls)), case)
+
+def slot_law(ctx):
+    """the lock-table slot is a function of the key alone: every interpreter (whatever its string-hash seed) maps a key to the same slot - the premise of mutual exclusion between processes that share the table"""
+    import coba.context.cachers as cc
+    keys = ["a", "b", 1, 2.5, ("x", 1), "openml_042693_data", "k" * 40]
+    script = "import sys; sys.path.insert(0, %r)\nimport coba.context.cachers as cc\nc = cc.ConcurrentCacher(cc.MemoryCacher(), [0]*2**16, None)\nprint([c._index(k) for k in %r])" % (REPO, keys)
+    here = [cc.ConcurrentCacher(cc.MemoryCacher(), [0] * 2**16, threading.Lock())._index(k) for k in keys]
+    for seed in ("1", "2", "random"):
+        ctx.count("slot", seed, True)
+        p = subprocess.run([sys.executable, "-W", "ignore", "-c", script], capture_output=True, text=True, env=dict(os.environ, PYTHONHASHSEED=seed), timeout=120)
+        if p.returncode != 0: ctx.fail(["slot", "raises"], "computing the slots in a child interpreter failed: %s" % p.stderr[-200:], dict(what="slot", seed=seed)); continue
+        there = json.loads(p.stdout.strip().splitlines()[-1])
+        if there != here:
+            ctx.fail(["slot", "not-a-function-of-the-key"], "an interpreter with PYTHONHASHSEED=%s maps the keys %r to slots %r, this one to %r: two processes sharing the lock table would not exclude each other" % (seed, keys, there, here), dict(what="slot", seed=seed, keys=[repr(k) for k in keys]))
 
 def reentrant_law(ctx):
     """one caller may read a key again inside its own with-block (the per-thread lock count): afterwards nothing is held and the key is still usable"""
@@ -315,6 +350,7 @@ def run(ctx):
     model_compare(ctx, reqs)
     disk_prefix_law(ctx)
     memory_partial_law(ctx)
+    slot_law(ctx)
     reentrant_law(ctx)
 
 def replay(r):
